@@ -58,10 +58,10 @@ func (j *Journal) Len() int {
 // Disk is a peer's restart-surviving storage: one datastore per database
 // cache path plus the keystore datastore.
 type Disk struct {
-	mu      sync.Mutex
-	j       *Journal
-	stores  map[string]ds.Datastore
-	ks      ds.Datastore
+	mu        sync.Mutex
+	j         *Journal
+	stores    map[string]ds.Datastore
+	ks        ds.Datastore
 	Destroyed []string
 }
 
@@ -191,7 +191,7 @@ func (w *journaledDS) Delete(ctx context.Context, k ds.Key) error {
 	return nil
 }
 func (w *journaledDS) Sync(ctx context.Context, k ds.Key) error { return w.inner.Sync(ctx, k) }
-func (w *journaledDS) Close() error                              { return nil }
+func (w *journaledDS) Close() error                             { return nil }
 
 var _ ds.Datastore = &journaledDS{}
 var _ cache.Interface = &diskCache{}
